@@ -115,6 +115,9 @@ ICrop(s, ta0, tb0, loc) ==
         IN [ok |-> TRUE,
             s |-> [g0 |-> IF loc THEN R0 ELSE ga, end_t |-> endt, end_g |-> endg, Vs |-> vs, T0 |-> t0b, Del |-> delc]]
 
+\* make_local AS CODED: only the start value is reset; the stored segment end points keep the old frame
+IMakeLocal(s) == [s EXCEPT !.g0 = R0]
+
 ---------------------------------------------------------------------------
 \* Abs: expression trees
 ASeg(T, V, ga) == [k |-> "Seg", T |-> T, V |-> V, ga |-> ga]
@@ -122,12 +125,14 @@ AEmpty(ga) == [k |-> "Empty", ga |-> ga]
 ACatL(x1, x2) == [k |-> "CatL", x1 |-> x1, x2 |-> x2]
 ACatG(x1, x2) == [k |-> "CatG", x1 |-> x1, x2 |-> x2]
 ACrop(x, ta, tb, loc) == [k |-> "Crop", x |-> x, ta |-> ta, tb |-> tb, loc |-> loc]
+ALocal(x) == [k |-> "Local", x |-> x]          \* documented meaning of make_local: y(t) = x(0)^-1 * x(t)
 
 RECURSIVE ATMax(_)
 ATMax(c) ==
   CASE c.k = "Empty" -> R0
     [] c.k = "Seg" -> c.T
     [] c.k \in {"CatL", "CatG"} -> RAdd(ATMax(c.x1), ATMax(c.x2))
+    [] c.k = "Local" -> ATMax(c.x)
     [] c.k = "Crop" -> LET a == RMax(c.ta, R0)  b == RMin(c.tb, ATMax(c.x))
                        IN IF RLeq(b, a) THEN R0 ELSE RSub(b, a)
 
@@ -151,6 +156,8 @@ AEv(c, t, side) ==
          LET t1 == ATMax(c.x1)
          IN IF RLt(t, t1) \/ (REq(t, t1) /\ side = "L") THEN AEv(c.x1, t, side)
             ELSE AEv(c.x2, RSub(t, t1), side)
+    [] c.k = "Local" ->
+         LET r == AEv(c.x, t, side) IN <<RSub(r[1], AEv(c.x, R0, "R")[1]), r[2], r[3]>>
     [] c.k = "Crop" ->
          LET a == RMax(c.ta, R0)  b == RMin(c.tb, ATMax(c.x))  T == RSub(b, a)
              ref == AEv(c.x, a, "R")[1]
@@ -168,6 +175,7 @@ AJumps(c) ==
     [] c.k = "CatL" -> AJumps(c.x1) \cup {RAdd(ATMax(c.x1), t) : t \in AJumps(c.x2)}
                        \cup (IF REq(AEv(c.x2, R0, "R")[1], R0) THEN {} ELSE {ATMax(c.x1)})
     [] c.k = "CatG" -> AJumps(c.x1) \cup {ATMax(c.x1)} \cup {RAdd(ATMax(c.x1), t) : t \in AJumps(c.x2)}
+    [] c.k = "Local" -> AJumps(c.x)
     [] c.k = "Crop" -> LET a == RMax(c.ta, R0) IN {RSub(t, a) : t \in {x \in AJumps(c.x) : RLt(a, x) /\ RLt(x, RMin(c.tb, ATMax(c.x)))}}
 
 Same3(p, q) == REq(p[1], q[1]) /\ REq(p[2], q[2]) /\ REq(p[3], q[3])
